@@ -504,12 +504,48 @@ class Cex:
         return {"label": self.label, "site": self.site, "values": self.values, "info": self.info}
 
 
+PATH_TIMEOUT_S = 60
+
+
+class _path_alarm:
+    """SIGALRM watchdog around one execution of the body: real code that loops forever inside a single path (no instruction-step
+    bound applies there) is aborted as an inconclusive path instead of hanging the check.  Main thread only; nested use and
+    platforms without setitimer degrade to no watchdog."""
+
+    def __init__(self, seconds):
+        self.seconds = seconds
+        self.armed = False
+
+    def __enter__(self):
+        import signal
+        import threading
+        if not self.seconds or threading.current_thread() is not threading.main_thread() or not hasattr(signal, "setitimer"):
+            return self
+        if signal.getitimer(signal.ITIMER_REAL)[0] > 0:
+            return self          # an outer watchdog is already running
+
+        def on_alarm(signum, frame):
+            raise PathAbort(f"one path of the code under check ran longer than {self.seconds} s")
+        self.old = signal.signal(signal.SIGALRM, on_alarm)
+        signal.setitimer(signal.ITIMER_REAL, self.seconds)
+        self.armed = True
+        return self
+
+    def __exit__(self, *a):
+        if self.armed:
+            import signal
+            signal.setitimer(signal.ITIMER_REAL, 0)
+            signal.signal(signal.SIGALRM, self.old)
+        return False
+
+
 class Explorer:
     """Depth-first exploration by re-execution.  A decision prefix entry is
     ("b", value, cond) for a solver-decided branch or ("e", value, n) for an enumeration point."""
 
     def __init__(self, timeout_ms: int = 20000, max_paths: int = 200000, max_concretize: int = 64,
                  max_depth: int = 4000, branch_timeout_ms: int = 3000, budget_s: float = 1800.0, max_cex: Optional[int] = None):
+        self.path_timeout_s = PATH_TIMEOUT_S      # wall-clock limit of ONE path of the code under check (a change can make it loop forever)
         self.max_cex = max_cex      # stop exploring once this many counterexamples were found (a broken build yields thousands)
         self.s = z3.Solver()
         self.s.set("timeout", branch_timeout_ms)
@@ -700,7 +736,8 @@ class Explorer:
                 self.s.push()
                 self.inputs = SymInputs(self)
                 try:
-                    obs = body(self.inputs)
+                    with _path_alarm(self.path_timeout_s):
+                        obs = body(self.inputs)
                     self.stats.paths += 1
                     if self.keep_path_conditions:
                         self.path_conditions.append(z3.And(*self._pc) if self._pc else z3.BoolVal(True))
@@ -710,6 +747,11 @@ class Explorer:
                 except PathAbort as e:
                     self.stats.aborted += 1
                     self.aborts.append(str(e))
+                    if "ran longer than" in str(e):
+                        self._path_timeouts = getattr(self, "_path_timeouts", 0) + 1
+                        if self._path_timeouts >= 3:
+                            self.aborts.append("three paths hit the per-path time limit; exploration stopped with open branches")
+                            break
                 finally:
                     self.s.pop()
                 for i, alt in self.open:
